@@ -16,7 +16,7 @@ from vlib.runner import HarnessError, ShardResult, Violation
 ID = "C10"
 LEVEL = "exploration"
 RULE = ("a case is a history over one service id on strictly consecutive connections, drawn from {connect, config(c1|c2), "
-        "upload(e1|e2), search(t_w), message with a foreign sid, message of unknown type, close, reconnect, reconnect inside the server's cleanup pause (the pause is a gate owned by the driver), server restart, two requests pipelined on one connection, a hard restart (every server module back to its import-time state), a complete workflow of a companion service whose id shares a 40-character prefix or is the same hex string in upper case; search messages with, without and with a non-bytes token_digest field}; c1/c2 are valid "
+        "upload(e1|e2), search(t_w), message with a foreign sid, message of unknown type, close, reconnect, reconnect inside the server's cleanup pause (the pause is a gate owned by the driver), server restart, two requests pipelined on one connection, a hard restart (every server module back to its import-time state), a complete workflow of a companion service whose id shares a 40-character prefix or is the same hex string in upper case; search messages with, without and with a non-bytes token_digest field, a configuration or index upload during which the n-th file-system mutation the server performs fails once with a survivable OSError (ENOSPC / EIO; a failing write stores half of its data first)}; c1/c2 are valid "
         "configurations differing in identifier size, e1/e2 index two databases that share keywords but not postings, so answering "
         "from the wrong config or index changes results. Executed over real loopback websockets against the real handler; the "
         "observable trace (init-echo state, ok / refused, result payloads) must equal the trace of a 3-state reference model "
@@ -26,6 +26,7 @@ RULE = ("a case is a history over one service id on strictly consecutive connect
         "distinct = distinct (scheme, history).")
 ASSUMPTIONS = ["control messages ('wait for the previous connection') are informational and skipped when matching the trace",
                "the server's cleanup pause is a gate released by the driver: after every closure (normal reconnect) or only after the next init echo (early reconnect); connections are strictly consecutive (overlap is C12's subject)",
+               "a request that met an injected I/O error and was not acknowledged may have taken effect completely or not at all: the state reported by the next connection (after the server's cleanup ran) decides, the model adopts it, and everything after it - refusals, results from the accepted index, the stored artefacts - is checked against the adopted state; an acknowledged request counts as accepted",
                "a promised outcome (reply or closure) that does not arrive within 15 s is reported as a harness error, not a violation"]
 
 SCHEMES = ["CJJ14.PiPack", "CJJ14.PiPtr", "DP17.Pi", "CJJ14.PiBas"]
@@ -122,7 +123,9 @@ class Driver:
             self.unsettled += 1
         self.rc = None
 
-    async def ensure_connected(self, early=False):
+    async def ensure_connected(self, early=False, either=None):
+        """either = {state: (cfg, edb)}: the previous request met an I/O error, so it took effect completely or not at all; the
+        init echo tells which, and the model adopts it"""
         from vlib import rig
         if self.rc is not None and self.rc.ws is not None and not self.rc.ws.closed:
             return
@@ -142,6 +145,11 @@ class Driver:
         if m["type"] != "init" or not isinstance(m.get("decoded"), dict) or m["decoded"].get("ok") is not True:
             self.fail("first message on a new connection is %r, expected an ok init echo" % ({k: m.get(k) for k in ("type", "decoded")},),
                       "bad_init_echo")
+        if either is not None and m["decoded"].get("state") in either and not isinstance(m["decoded"].get("state"), bool):
+            self.state = m["decoded"]["state"]
+            self.cfg, self.edb = either[self.state]
+            if self.state > 0:
+                self.ever_accepted = True
         if m["decoded"].get("state") != self.state:
             self.fail("init echo reports state %r, the accepted requests so far imply state %d%s" % (
                 m["decoded"].get("state"), self.state, " (reconnect within the server's cleanup pause)" if early and self.unsettled else ""),
@@ -265,6 +273,9 @@ class Driver:
                 finally:
                     self.reply_may_be_lost = False
             return
+        if kind == "faulty":
+            await self.faulty(ev)
+            return
         if kind == "restart":
             await self.drain_and_close()
             await self.settle()
@@ -303,6 +314,56 @@ class Driver:
                 self.fail("a message of unknown type %r was answered with %r" % (ev[1], (m.get("type"), m.get("decoded"))), "unknown_type_answered")
         else:
             raise ValueError(kind)
+
+    async def faulty(self, ev):
+        """["faulty", "config"|"upload", i, n]: the request is handled while the n-th file-system mutation the server performs for it
+        fails with a survivable OSError (full disk).  A request the model refuses performs no mutation and is refused as usual.  For a
+        request the model accepts: without a fired fault the usual acceptance is demanded; with one, the request is EITHER refused (or
+        the connection dropped) OR acknowledged, and the state found on the next connection -- after the server's cleanup ran --
+        must be the old one or the complete new one (state AND artefact); the model adopts what the init echo reports and every later
+        event is checked against it."""
+        from vlib import ioerr, rig
+        _, req, i, n = ev
+        await self.ensure_connected()
+        would_accept = (req == "config" and self.state == 0) or (req == "upload" and self.state == 1)
+        inj = ioerr.injector()
+        inj.arm(rig.modules().sse_dir, n)
+        try:
+            if req == "config":
+                await self.rc.send("config", pickle.dumps(self.fx["c"][i]))
+            else:
+                await self.rc.send("upload_edb", self.fx["e"][i])
+            if not would_accept:
+                await self.expect_outcome([req, i])
+                return
+            m = await self.next_msg()
+        finally:
+            inj.disarm()
+        self.io_ops = max(getattr(self, "io_ops", 0), inj.counter)
+        rtype = "config" if req == "config" else "upload_edb"
+        acked = m["type"] == rtype and isinstance(m.get("decoded"), dict) and m["decoded"].get("ok") is True
+        new = (1, self.fx["c"][i], None) if req == "config" else (2, self.cfg, self.fx["e"][i])
+        if not inj.fired:
+            if not acked:
+                self.fail("%s in state %d must be accepted (no fault fired), got %r" % (req, self.state, (m.get("type"), m.get("decoded"), m.get("code"))),
+                          "%s_not_accepted" % req)
+            self.state, self.cfg, self.edb = new
+            self.ever_accepted = True
+            return
+        self.faults_fired = getattr(self, "faults_fired", 0) + 1
+        self.trace.append(["(fault fired)", list(inj.fired)])
+        if acked:
+            # acknowledged in spite of the fault: then it is accepted, completely
+            self.state, self.cfg, self.edb = new
+            self.ever_accepted = True
+            return
+        if m["type"] == "__closed__":
+            self.note_closed()
+        elif not (m["type"] == rtype and isinstance(m.get("decoded"), dict) and m["decoded"].get("ok") is False):
+            self.fail("a %s request that met an I/O error was answered with %r" % (req, (m.get("type"), m.get("decoded"))), "fault_bad_reply")
+        self.refused += 1
+        await self.drain_and_close()
+        await self.ensure_connected(either={self.state: (self.cfg, self.edb), new[0]: (new[1], new[2])})
 
     async def expect_outcome(self, ev):
         """reads and checks the outcome of one already-sent request against the model (and advances the model)"""
@@ -441,6 +502,7 @@ def st_case(draw, max_len):
         st.tuples(st.just("search"), st.sampled_from(["alpha", "beta"]), st.sampled_from(["nodigest", "strdigest"])).map(list),
         st.tuples(st.just("foreign"), st.sampled_from(["config", "upload_edb", "token"])).map(list),
         st.tuples(st.just("unknown"), st.sampled_from(["delete", "init", "result", "control", ""])).map(list),
+        st.tuples(st.just("faulty"), st.sampled_from(["config", "upload"]), st.sampled_from([1, 2]), st.integers(0, 14)).map(list),
         st.sampled_from([["reconnect"], ["reconnect"], ["reconnect_early"], ["reconnect_early"], ["close"], ["restart"], ["restart", 1],
                          ["companion"], ["companion", "case"]]),
         st.tuples(st.just("pipeline"), st.lists(st.one_of(
@@ -459,7 +521,9 @@ def body(case, res):
         kinds = [e[0] for e in case["history"]]
         nt = bool(drv and drv.refused >= 1 and drv.reconnects_after_accept >= 1)
         cl = ["scheme:" + case["scheme"], "final_state:%s" % (drv.state if drv else "?")]
-        for k in ("foreign", "unknown", "restart", "reconnect_early", "companion", "pipeline"):
+        if drv and getattr(drv, "faults_fired", 0):
+            cl.append("io_fault_fired")
+        for k in ("foreign", "unknown", "restart", "reconnect_early", "companion", "pipeline", "faulty"):
             if k in kinds:
                 cl.append("has_" + k)
         if drv and drv.refused:
@@ -517,6 +581,23 @@ def run_shard(spec, seed, tier):
                     except Violation as v:
                         if v.bucket not in first:
                             first[v.bucket] = (case, str(v))
+        if spec["first"] == "config2":
+            # survivable I/O errors: every mutation index of a configuration upload and of an index upload, each followed by the
+            # requests that tell the old state from the new one
+            fired = 0
+            for scheme in SCHEMES[:2] if tier == "quick" else SCHEMES:
+                for n in range(0, 14):
+                    for hist in ([["faulty", "config", 1, n], ["config", 2], ["upload", 2], ["search", "alpha"], ["search", "gamma"]],
+                                 [["config", 1], ["faulty", "upload", 1, n], ["upload", 2], ["search", "alpha"], ["reconnect"], ["search", "beta"]],
+                                 [["config", 1], ["reconnect"], ["faulty", "upload", 2, n], ["search", "alpha"], ["upload", 1], ["search", "beta"]],
+                                 [["config", 2], ["upload", 2], ["faulty", "upload", 1, n], ["faulty", "config", 1, n], ["search", "beta"]]):
+                        case = {"scheme": scheme, "history": hist, "seed": 1}
+                        count += 1
+                        try:
+                            body(case, res)
+                        except Violation as v:
+                            if v.bucket not in first:
+                                first[v.bucket] = (case, str(v))
         res.exhaustive = len(first) < 3
         res.extra["exhaustive_histories"] = count
         res.extra["exhaustive_bounds"] = "all histories of depth <= %d over %r (one scheme)" % (depth, ALPHABET)
